@@ -135,7 +135,8 @@ def pick (tr : Trail) : Clause → Pick
 inductive Err where
   | assertion      -- AssertionError in analyze_conflict
   | index          -- IndexError / KeyError
-  | outOfFuel
+  | outOfFuel      -- the fuel standing in for `while True` of the main loop / of `analyze_conflict` ran out
+  | propFuel       -- the fuel of `unit_propagate` ran out (never happens: `no_crash`)
   deriving Repr, BEq, DecidableEq
 
 /-- `analyze_conflict`: returns (proof, clause, remaining oracle). -/
@@ -207,7 +208,7 @@ def mainLoop (vars : List Nat) (nvars af : Nat) : Nat → St → Prop' → Resul
   | 0, _, _ => .error .outOfFuel
   | fuel + 1, s, pr =>
     match pr with
-    | .outOfFuel => .error .outOfFuel
+    | .outOfFuel => .error .propFuel
     | .sat => .sat (s.tr.map (fun a => (a.name, a.val)))
     | .undecided =>
       let level := s.level + 1
